@@ -36,6 +36,9 @@ type SpecCfg struct {
 	DefaultResponse bool
 	Text func(*rapid.T, string) string
 	ExtValue func(*rapid.T, string) any
+	// AcyclicRefs: definition i may only reference definitions declared before it
+	// (plus, now and then, itself), which keeps $ref expansion small.
+	AcyclicRefs bool
 }
 
 var allMethods = []string{"get", "put", "post", "delete", "options", "head", "patch"}
@@ -145,10 +148,40 @@ func Spec(t *rapid.T, c *SpecCfg) J {
 	if nd > 0 {
 		defs := J{}
 		soAll := so
+		ancestors := map[string]map[string]bool{}
+		var objDefs []string // allOf members must be object definitions declared earlier (acyclic ancestry)
 		for i, n := range defNames {
 			var s J
-			so := *soAll.WithAllOfRefs(defNames[:i]) // allOf ancestry stays acyclic
+			so := *soAll.WithAllOfRefs(append([]string{}, objDefs...))
+			if c.AcyclicRefs {
+				so.Refs = append([]string{}, defNames[:i]...)
+				if chance(t, fmt.Sprintf("def%d_selfref", i), 15) {
+					so.Refs = append(so.Refs, n)
+				}
+			}
+			// ancestry of this definition: every allOf-referenced definition and its
+			// own ancestors may occur only once
+			mine := map[string]bool{}
+			ancestors[n] = mine
+			so.AllOfOK = func(r string) bool {
+				if mine[r] {
+					return false
+				}
+				for a := range ancestors[r] {
+					if mine[a] {
+						return false
+					}
+				}
+				return true
+			}
+			so.AllOfUse = func(r string) {
+				mine[r] = true
+				for a := range ancestors[r] {
+					mine[a] = true
+				}
+			}
 			if chance(t, fmt.Sprintf("def%d_isobj", i), 60) {
+				objDefs = append(objDefs, n)
 				s = J{}
 				ObjectInto(t, fmt.Sprintf("def%d", i), &so, 0, s)
 				if so.Descr && chance(t, fmt.Sprintf("def%d_hasdesc", i), 30) {
